@@ -293,3 +293,133 @@ Proof.
   - rewrite (proj2 (input_lookup n2 v2 n1 v1 _)) by auto. rewrite !(proj1 (input_lookup n2 v2 n1 v1 _)). reflexivity.
   - rewrite !(proj2 (input_lookup name v1 _ _ _)) by auto. reflexivity.
 Qed.
+
+(* The two halves of C19 meet: every state a WELL-TYPED call sequence builds has every stack within its
+   maximum (the well-formedness C02/C03 start from).  Invariant: a stack whose type-state is not
+   "with data" is still empty, and every stack is within its current maximum - sizes can only be set
+   while the stack is empty, and loading checks the room. *)
+Definition swf (s : sstack Z) : Prop := (ssize s <= smax s)%N.
+Definition binv (t : ts) (s : bstate) : Prop :=
+  (t_exec t <> WSD -> elems (b_exec s) = []) /\ swf (b_exec s) /\
+  forall k m st, nth_error (t_stacks t) k = Some m -> nth_error (b_stacks s) k = Some st ->
+                 (m <> WSD -> elems st = []) /\ swf st.
+
+Lemma swf_empty n : swf (SS n (@nil Z)).
+Proof. unfold swf, ssize. cbn. lia. Qed.
+
+Lemma nth_error_repeat {X} (x : X) n k y : nth_error (repeat x n) k = Some y -> y = x.
+Proof. revert k. induction n as [|n IH]; intros [|k]; cbn; try discriminate; [now intros [= <-]|apply IH]. Qed.
+
+Lemma binv_init n : binv (tinit n) (binit n).
+Proof.
+  split; [reflexivity|]. split; [apply swf_empty|].
+  intros k m st Hm Hs. cbn in Hm, Hs. apply nth_error_repeat in Hs. subst st. split; [reflexivity|apply swf_empty].
+Qed.
+
+Lemma forallb_nth {X} (P : X -> bool) l k x : forallb P l = true -> nth_error l k = Some x -> P x = true.
+Proof. intros H Hk. rewrite forallb_forall in H. apply H. eapply nth_error_In; eassumption. Qed.
+
+Lemma push_many_wf l st st' : push_many l st = Some st' -> swf st' /\ smax st' = smax st.
+Proof.
+  unfold push_many. cbn [sstep]. destruct (N.ltb_spec (smax st) (N.of_nat (length l) + ssize st)) as [|Hge]; [discriminate|].
+  intros [= <-]. unfold swf, ssize in *. cbn [smax elems]. rewrite app_length, Nat2N.inj_add. split; [lia|reflexivity].
+Qed.
+
+Lemma binv_step t s c t' s' : binv t s -> tstep t c = Some t' -> bstep s c = BOk s' -> binv t' s'.
+Proof.
+  intros (He & Hwe & Hst) Ht Hb. destruct c; cbn [tstep bstep] in *.
+  - (* MaxAll: only while everything is still empty *)
+    destruct (dataless (t_exec t) && forallb dataless (t_stacks t)) eqn:E; [|discriminate].
+    apply andb_true_iff in E as [E1 E2]. injection Ht as <-. injection Hb as <-. cbn [t_exec t_stacks b_exec b_stacks].
+    assert (Hee : elems (b_exec s) = []) by (apply He; destruct (t_exec t); cbn in E1; congruence).
+    split; [intros _; exact Hee|]. split; [unfold swf, ssize, set_max; cbn; rewrite Hee; cbn; lia|].
+    intros k m st Hm Hs. cbn [t_exec t_stacks b_exec b_stacks] in Hm, Hs. rewrite nth_error_map in Hm. rewrite nth_error_map in Hs.
+    destruct (nth_error (t_stacks t) k) as [m0|] eqn:Em; [|discriminate]. injection Hm as <-.
+    destruct (nth_error (b_stacks s) k) as [st0|] eqn:Es; [|discriminate]. injection Hs as <-.
+    destruct (Hst k m0 st0 Em Es) as [Hemp _].
+    assert (Hd : dataless m0 = true) by (eapply forallb_nth; eassumption).
+    assert (E0 : elems st0 = []) by (apply Hemp; destruct m0; cbn in Hd; congruence).
+    split; [intros _; exact E0|]. unfold swf, ssize, set_max. cbn. rewrite E0. cbn. lia.
+  - (* MaxOf *)
+    destruct (nth_error (t_stacks t) k) as [m0|] eqn:Em; [|discriminate].
+    destruct (dataless m0) eqn:Hd; [|discriminate]. injection Ht as <-.
+    destruct (nth_error (b_stacks s) k) as [st0|] eqn:Es.
+    + injection Hb as <-. cbn [t_exec t_stacks b_exec b_stacks]. split; [exact He|]. split; [exact Hwe|].
+      intros j m st Hm Hs. cbn [t_exec t_stacks b_exec b_stacks] in Hm, Hs. rewrite upd_nth in Hm. rewrite upd_nth in Hs. destruct (Nat.eqb_spec j k) as [->|Hne].
+      * rewrite Em in Hm. rewrite Es in Hs. injection Hm as <-. injection Hs as <-.
+        destruct (Hst k m0 st0 Em Es) as [Hemp _].
+        assert (E0 : elems st0 = []) by (apply Hemp; destruct m0; cbn in Hd; congruence).
+        split; [intros _; exact E0|]. unfold swf, ssize, set_max. cbn. rewrite E0. cbn. lia.
+      * exact (Hst j m st Hm Hs).
+    + injection Hb as <-. cbn [t_exec t_stacks]. split; [exact He|]. split; [exact Hwe|].
+      intros j m st Hm Hs. cbn [t_exec t_stacks b_exec b_stacks] in Hm, Hs. rewrite upd_nth in Hm. destruct (Nat.eqb_spec j k) as [->|Hne]; [congruence|]. exact (Hst j m st Hm Hs).
+  - (* Values *)
+    destruct (nth_error (t_stacks t) k) as [m0|] eqn:Em; [|discriminate].
+    destruct (sizeset m0); [|discriminate]. injection Ht as <-.
+    destruct (nth_error (b_stacks s) k) as [st0|] eqn:Es.
+    + destruct (push_many l st0) as [st1|] eqn:Ep; [|discriminate]. injection Hb as <-.
+      cbn [t_exec t_stacks b_exec b_stacks]. split; [exact He|]. split; [exact Hwe|].
+      intros j m st Hm Hs. cbn [t_exec t_stacks b_exec b_stacks] in Hm, Hs. rewrite upd_nth in Hm. rewrite upd_nth in Hs. destruct (Nat.eqb_spec j k) as [->|Hne].
+      * rewrite Em in Hm. rewrite Es in Hs. injection Hm as <-. injection Hs as <-.
+        split; [intros H; exfalso; apply H; reflexivity|]. apply (push_many_wf _ _ _ Ep).
+      * exact (Hst j m st Hm Hs).
+    + injection Hb as <-. cbn [t_exec t_stacks]. split; [exact He|]. split; [exact Hwe|].
+      intros j m st Hm Hs. cbn [t_exec t_stacks b_exec b_stacks] in Hm, Hs. rewrite upd_nth in Hm. destruct (Nat.eqb_spec j k) as [->|Hne]; [congruence|]. exact (Hst j m st Hm Hs).
+  - (* Program *)
+    destruct (t_exec t) eqn:Ee; try discriminate. injection Ht as <-.
+    destruct (push_many l (b_exec s)) as [e1|] eqn:Ep; [|discriminate]. injection Hb as <-.
+    cbn [t_exec t_stacks b_exec b_stacks]. split; [intros H; exfalso; apply H; reflexivity|]. split; [apply (push_many_wf _ _ _ Ep)|exact Hst].
+  - destruct (t_exec t) eqn:Ee; try discriminate. injection Ht as <-. injection Hb as <-.
+    cbn [t_exec t_stacks]. split; [intros H; exfalso; apply H; reflexivity|]. split; [exact Hwe|exact Hst].
+  - destruct (nth_error (t_stacks t) k); [|discriminate]. injection Ht as <-. injection Hb as <-.
+    cbn [b_exec b_stacks]. split; [exact He|]. split; [exact Hwe|exact Hst].
+  - injection Ht as <-. injection Hb as <-. cbn [t_exec t_stacks b_exec b_stacks]. split; [exact He|]. split; [exact Hwe|exact Hst].
+  - assert (E : t' = t) by (destruct (t_exec t), (t_limit t); try discriminate; congruence).
+    injection Hb as <-. subst t'. exact (conj He (conj Hwe Hst)).
+Qed.
+
+Lemma binv_run cs : forall t s t' s', binv t s -> trun t cs = Some t' -> brun s cs = BOk s' -> binv t' s'.
+Proof.
+  induction cs as [|c cs IH]; intros t s t' s' Hi; cbn [trun brun].
+  - intros [= <-] [= <-]. exact Hi.
+  - destruct (tstep t c) as [t1|] eqn:Et; [|discriminate]. destruct (bstep s c) as [s1|] eqn:Eb; [|discriminate].
+    apply IH. eapply binv_step; eassumption.
+Qed.
+
+Lemma tstep_len t c t' : tstep t c = Some t' -> length (t_stacks t') = length (t_stacks t).
+Proof.
+  assert (U : forall X k (m : X) l, length (upd k m l) = length l).
+  { intros X k m l. revert k. induction l as [|x l IHl]; intros [|k]; cbn; auto. }
+  destruct c; cbn [tstep]; intros E;
+    repeat match type of E with context [match ?x with _ => _ end] => destruct x eqn:? end;
+    try discriminate; injection E as <-; cbn [t_stacks]; rewrite ?map_length, ?U; reflexivity.
+Qed.
+Lemma bstep_len s c s' : bstep s c = BOk s' -> length (b_stacks s') = length (b_stacks s).
+Proof.
+  assert (U : forall X k (m : X) l, length (upd k m l) = length l).
+  { intros X k m l. revert k. induction l as [|x l IHl]; intros [|k]; cbn; auto. }
+  destruct c; cbn [bstep]; intros E;
+    repeat match type of E with context [match ?x with _ => _ end] => destruct x eqn:? end;
+    try discriminate; injection E as <-; cbn [b_stacks]; rewrite ?map_length, ?U; reflexivity.
+Qed.
+Lemma run_len cs : forall t s t' s', length (t_stacks t) = length (b_stacks s) ->
+  trun t cs = Some t' -> brun s cs = BOk s' -> length (t_stacks t') = length (b_stacks s').
+Proof.
+  induction cs as [|c cs IH]; intros t s t' s' Hl; cbn [trun brun].
+  - intros [= <-] [= <-]. exact Hl.
+  - destruct (tstep t c) as [t1|] eqn:Et; [|discriminate]. destruct (bstep s c) as [s1|] eqn:Eb; [|discriminate].
+    apply IH. rewrite (tstep_len _ _ _ Et), (bstep_len _ _ _ Eb). exact Hl.
+Qed.
+
+Theorem typed_built_wf n cs s : typed n cs = true -> brun (binit n) cs = BOk s ->
+  swf (b_exec s) /\ forall st, In st (b_stacks s) -> swf st.
+Proof.
+  unfold typed. destruct (trun (tinit n) cs) as [t|] eqn:R; [|discriminate]. intros _ Hb.
+  pose proof (binv_run cs _ _ _ _ (binv_init n) R Hb) as (_ & Hwe & Hst).
+  split; [exact Hwe|]. intros st Hin. apply In_nth_error in Hin. destruct Hin as [k Hk].
+  assert (Hl : length (t_stacks t) = length (b_stacks s)).
+  { eapply run_len; [|exact R|exact Hb]. cbn. now rewrite !repeat_length. }
+  destruct (nth_error (t_stacks t) k) as [m|] eqn:Em.
+  - exact (proj2 (Hst k m st Em Hk)).
+  - apply nth_error_None in Em. assert (k < length (b_stacks s)) by (apply nth_error_Some; congruence). lia.
+Qed.
